@@ -1,7 +1,8 @@
 """C08 - malformed input never crashes, overflows the stack or hangs.
 G: TLC enumerates the shapes of spec/Robust.tla: for every relation pdfcpu traverses (page tree, field tree, structure
    tree, name/number trees, form XObjects, action /Next, beads, xref /Prev and /XRefStm, /Extends, indirect /Length,
-   reference chains, /Parent chains, colour spaces, functions, /SMask, /IRT, outlines) all digraphs on few nodes
+   reference chains, /Parent chains, colour spaces, functions, /SMask, /IRT, outlines incl. outline trees whose child /Next,/Prev links are free - items
+   shared between lists, rho shaped sibling chains -) all digraphs on few nodes
    (cycles, self loops, shared children, dangling and wrong-typed targets), nesting depths around the recursion limit
    and far beyond, and mutation classes of valid fonts / certificates / PKCS#7 / JSON / CSV / PDFs.  TLC also checks the
    model's own guarded traversal (step bound, progress) on every shape.
